@@ -88,7 +88,10 @@ def gen_op(rng, info):
     if k in ("norm_nodes", "norm_refs", "circular_ns"):
         return {"k": k, "uri": rng.choice(uris + [None]) if k != "circular_ns" else rng.choice(uris[1:])}
     if k == "lookup":
-        return {"k": "lookup", "name": rng.choice(info["names"] + ["NoSuchName", ""]), "cls": rng.choice([None, "ReferenceType", "ObjectType", "Object", "DataType", "VariableType"])}
+        name = rng.choice(info["names"] + ["NoSuchName", ""])
+        if info.get("shared") and rng.random() < 0.5:
+            name = rng.choice(info["shared"])
+        return {"k": "lookup", "name": name, "cls": rng.choice([None, "ReferenceType", "ObjectType", "Object", "DataType", "VariableType"])}
     if k in ("refs_of_type", "closure", "circular"):
         return {"k": k, "name": rng.choice(info["reftypes"] + ["NoSuchType"] if rng.random() < 0.1 else info["reftypes"])}
     if k == "nav":
@@ -295,7 +298,10 @@ def graph_info(G):
     present = set(G.references["ReferenceType"].tolist())
     rt_used = [b for b, i in zip(n.loc[n["NodeClass"] == "UAReferenceType", "BrowseName"], n.loc[n["NodeClass"] == "UAReferenceType", "id"]) if i in present]
     enums = []
-    return {"uris": list(G.namespaces), "names": sorted(set(n["BrowseName"].tolist()))[:60], "reftypes": sorted(set(rt_used)) or sorted(set(rt)),
+    by = {}
+    for b_, c_ in zip(n["BrowseName"], n["NodeClass"]):
+        by.setdefault(b_, set()).add(c_)
+    return {"shared": sorted(b_ for b_, cs in by.items() if len(cs) > 1), "uris": list(G.namespaces), "names": sorted(set(n["BrowseName"].tolist()))[:60], "reftypes": sorted(set(rt_used)) or sorted(set(rt)),
             "ids": [int(x) for x in n["id"].tolist()[:80]], "objtypes": sorted(set(n.loc[n["NodeClass"] == "UAObjectType", "BrowseName"].tolist())),
             "enums": enums}
 
@@ -304,6 +310,15 @@ def one_history(run, sc, i, length):
     rng = run.rng
     # half of the graphs have a namespace URI with XML-special characters (it shows up in Model / RequiredModel attributes)
     g, files = W.gen_closed(rng, hostile=rng.random() < 0.3, features={"hostile_uri": rng.random() < 0.5})
+    # browse names shared by nodes of different classes (a look-up by name is then decided by the class asked for)
+    keys_ = list(g["nodes"])
+    for _ in range(3):
+        if len(keys_) >= 2:
+            a_, b_ = rng.sample(keys_, 2)
+            if g["nodes"][a_]["cls"] != g["nodes"][b_]["cls"]:
+                g["nodes"][b_]["browse"] = g["nodes"][a_]["browse"]
+    import docs as D
+    files = D.serialise(rng, g)
     try:
         G, _ = W.build_graph(sc, "g%d" % i, files)
     except Exception as e:  # noqa: BLE001
